@@ -120,7 +120,7 @@ theorem step_refines (c : Cur) (r : Rd) (op : ROp) (h : Abs c r) (hs : r.Small o
     simp
   | release e =>
     refine ⟨{ c with mark := c.pos }, by simp [Rd.step, Cur.step], ?_⟩
-    simp only [Rd.step]
+    simp only [Rd.step, Rd.releaseE]
     obtain ⟨pre, hS, hm⟩ := h.split
     have hri := h.inv.ri_le
     refine ⟨release_inv r h.inv, ⟨pre ++ r.buf.take r.ri, ?_, ?_⟩, ?_⟩
